@@ -178,6 +178,18 @@ class ElectronRepulsionIntegral(BaseFourIndexSymmetric):
         if swap_pairs:
             cont_one, cont_two, cont_three, cont_four = cont_three, cont_four, cont_one, cont_two
 
+        # NOTE: within each pair, the horizontal recursion moves angular momentum from the first onto
+        # the second shell, (a, b + 1) = (a + 1, b) + (A - B) (a, b), which cancels badly when the
+        # second shell is the tighter one (the product centre then sits on it). Since
+        # (ab|cd) = (ba|cd) = (ab|dc), list the shell with the tightest primitive first in each pair
+        # and swap back at the end.
+        swap_bra = np.max(cont_two.exps) > np.max(cont_one.exps)
+        if swap_bra:
+            cont_one, cont_two = cont_two, cont_one
+        swap_ket = np.max(cont_four.exps) > np.max(cont_three.exps)
+        if swap_ket:
+            cont_three, cont_four = cont_four, cont_three
+
         if cont_one.angmom == cont_two.angmom == cont_three.angmom == cont_four.angmom == 0:
             integrals = _compute_two_elec_integrals_angmom_zero(
                 cls.boys_func,
@@ -219,6 +231,11 @@ class ElectronRepulsionIntegral(BaseFourIndexSymmetric):
                 cont_four.coeffs,
             )
         integrals = np.transpose(integrals, (4, 0, 5, 1, 6, 2, 7, 3))
+
+        if swap_ket:
+            integrals = np.transpose(integrals, (0, 1, 2, 3, 6, 7, 4, 5))
+        if swap_bra:
+            integrals = np.transpose(integrals, (2, 3, 0, 1, 4, 5, 6, 7))
 
         if swap_pairs:
             integrals = np.transpose(integrals, (4, 5, 6, 7, 0, 1, 2, 3))
